@@ -29,12 +29,13 @@ func (w *World) rulesAutomaton(p *Pkg, m *parseModel, add func(ok bool, rule, in
 	ov := vocab[p.Key]
 	sm := p.SetModel()
 	fd := m.fd
-	// the statement list that contains the split, and what follows it
-	var tail []ast.Stmt
+	// the statement list that contains the split, what precedes and what follows it
+	var tail, pre []ast.Stmt
 	var find func(list []ast.Stmt) bool
 	find = func(list []ast.Stmt) bool {
 		for i, s := range list {
 			if s == ast.Stmt(m.splitAs) {
+				pre = list[:i]
 				tail = list[i+1:]
 				return true
 			}
@@ -60,9 +61,15 @@ func (w *World) rulesAutomaton(p *Pkg, m *parseModel, add func(ok bool, rule, in
 		add(false, "R01.automaton", "ParseVector.cursor", fd, "cannot locate the statements that follow the element split: undecided")
 		return
 	}
-	// state variables: int locals defined before the loop and assigned in the tail
+	// state variables: int locals defined before the loop with a constant and
+	// assigned in the loop from constants, tables and other state variables
+	// only. Int locals fed from anything else (scanner positions such as
+	// `start = end + 1`) are not cursor state: they are bound to an unknown
+	// value, on which any test is undecided.
 	var stateVars []types.Object
 	init := map[types.Object]int64{}
+	cand := map[types.Object]bool{}
+	var candOrder []types.Object
 	for _, s := range fd.Body.List {
 		if s == m.loop {
 			break
@@ -90,17 +97,89 @@ func (w *World) rulesAutomaton(p *Pkg, m *parseModel, add func(ok bool, rule, in
 			}
 			u, ok := constUint(info, as.Rhs[i])
 			if !ok {
-				add(false, "R01.automaton", "ParseVector.cursor", s, "cursor "+o.Name()+" does not start at a constant: undecided")
-				return
+				continue
 			}
-			stateVars = append(stateVars, o)
+			cand[o] = true
+			candOrder = append(candOrder, o)
 			init[o] = int64(u)
+		}
+	}
+	// locals other than candidates mentioned by an expression
+	foreignLocal := func(e ast.Node) bool {
+		bad := false
+		ast.Inspect(e, func(n ast.Node) bool {
+			if id, ok := n.(*ast.Ident); ok {
+				if v, ok := info.Uses[id].(*types.Var); ok && v.Parent() != p.P.Types.Scope() && !v.IsField() && !cand[v] {
+					bad = true
+				}
+			}
+			return true
+		})
+		return bad
+	}
+	for changed := true; changed; {
+		changed = false
+		ast.Inspect(m.loop, func(n ast.Node) bool {
+			as, ok := n.(*ast.AssignStmt)
+			if !ok {
+				return true
+			}
+			for i, l := range as.Lhs {
+				o := identObj(info, l)
+				if o == nil || !cand[o] {
+					continue
+				}
+				var rhs ast.Expr
+				if len(as.Rhs) == len(as.Lhs) {
+					rhs = as.Rhs[i]
+				} else if len(as.Rhs) == 1 {
+					rhs = as.Rhs[0]
+				}
+				if rhs == nil || foreignLocal(rhs) {
+					delete(cand, o)
+					changed = true
+				}
+			}
+			return true
+		})
+	}
+	for _, o := range candOrder {
+		if cand[o] {
+			stateVars = append(stateVars, o)
+		} else {
+			delete(init, o)
 		}
 	}
 	if len(stateVars) == 0 {
 		add(false, "R01.automaton", "ParseVector.cursor", fd, "no cursor variables found: undecided")
 		return
 	}
+	// statements of the element block that precede the split and speak about
+	// the cursor only (e.g. `if group >= len(order) { return … }`) belong to
+	// the step; the others (the byte scanner) must not write the cursor
+	var preStep []ast.Stmt
+	for _, s := range pre {
+		if !foreignLocal(s) {
+			mentions := false
+			ast.Inspect(s, func(n ast.Node) bool {
+				if id, ok := n.(*ast.Ident); ok && cand[info.Uses[id]] {
+					mentions = true
+				}
+				return true
+			})
+			if mentions {
+				preStep = append(preStep, s)
+				continue
+			}
+		}
+		for _, o := range stateVars {
+			if assignedIn(info, s, o) {
+				add(false, "R01.automaton", "ParseVector.cursor", s, "cursor "+o.Name()+" is written by the element scanner: undecided")
+				return
+			}
+		}
+	}
+	tail = append(append([]ast.Stmt(nil), preStep...), tail...)
 	// post-loop statements (acceptance)
 	var post []ast.Stmt
 	seenLoop := false
@@ -155,6 +234,9 @@ func (w *World) rulesAutomaton(p *Pkg, m *parseModel, add func(ok bool, rule, in
 					if _, has := ce.vars[o]; !has {
 						if b, ok := o.Type().Underlying().(*types.Basic); !ok || (b.Info()&types.IsInteger == 0 && b.Info()&types.IsString == 0) {
 							ce.vars[o] = Val{K: VOpaque, S: o.Name()}
+						} else {
+							// scanner positions and raw input
+							ce.vars[o] = Val{K: VUnk}
 						}
 					}
 				}
@@ -305,6 +387,9 @@ func (w *World) rulesAutomaton(p *Pkg, m *parseModel, add func(ok bool, rule, in
 	nTrans, nStates := 0, 0
 	var problems []string
 	orderErrs := map[string]int{}
+	// rejections by kind: in a state with metrics left, in the state where
+	// every metric has been consumed, and at the end of the input
+	midErrs, fullErrs, shortErrs := map[string]int{}, map[string]int{}, map[string]int{}
 	for len(queue) > 0 && len(problems) < 5 {
 		cur := queue[0]
 		queue = queue[1:]
@@ -320,6 +405,9 @@ func (w *World) rulesAutomaton(p *Pkg, m *parseModel, add func(ok bool, rule, in
 			if err != nil {
 				add(false, "R01.automaton", "ParseVector.cursor", fd, "cannot evaluate the post-loop acceptance test (undecided): "+err.Error())
 				return
+			}
+			if !acc && !oracleAccept(cur.oracle) {
+				shortErrs[errName]++
 			}
 			if acc != oracleAccept(cur.oracle) {
 				problems = append(problems, fmt.Sprintf("after %s the parser %s, the specification %s", cur.trace, map[bool]string{true: "accepts", false: "rejects (" + errName + ")"}[acc], map[bool]string{true: "accepts", false: "rejects (incomplete group / missing base metric)"}[oracleAccept(cur.oracle)]))
@@ -342,6 +430,11 @@ func (w *World) rulesAutomaton(p *Pkg, m *parseModel, add func(ok bool, rule, in
 					problems = append(problems, fmt.Sprintf("the well-ordered prefix %s is rejected with %s", tr, out.err))
 				} else {
 					orderErrs[out.err]++
+					if cur.oracle == len(flat) {
+						fullErrs[out.err]++
+					} else {
+						midErrs[out.err]++
+					}
 				}
 			case "next":
 				if !ook {
@@ -363,6 +456,37 @@ func (w *World) rulesAutomaton(p *Pkg, m *parseModel, add func(ok bool, rule, in
 		add(true, "R01.automaton", "ParseVector.cursor", m.loop, fmt.Sprintf("cursor automaton (%d reachable state pairs, %d transitions over %d abbreviations) accepts exactly the specification's order language: mandatory base group, optional metrics/groups in order, each at most once; no table index leaves its bounds; rejections: %s", nStates, nTrans, len(alphabet), strings.Join(errKinds, ", ")))
 	} else {
 		add(false, "R01.automaton", "ParseVector.cursor", m.loop, "the parser's cursor logic differs from the specification's order rule: "+strings.Join(problems, "; "))
+	}
+	if len(problems) == 0 {
+		m.autoOK = true
+		kinds := func(mm map[string]int) string {
+			var ks []string
+			for e, n := range mm {
+				ks = append(ks, fmt.Sprintf("%s×%d", e, n))
+			}
+			sort.Strings(ks)
+			return strings.Join(ks, ", ")
+		}
+		only := func(mm map[string]int, want string) bool {
+			for e := range mm {
+				if e != want {
+					return false
+				}
+			}
+			return len(mm) > 0
+		}
+		okMid := only(midErrs, "ErrInvalidMetricOrder")
+		add(okMid, "R18.auto", "ParseVector.order", m.loop, map[bool]string{true: "every misplaced, repeated or unknown abbreviation met while metrics remain is rejected with ErrInvalidMetricOrder (" + kinds(midErrs) + ")", false: "a misplaced, repeated or unknown abbreviation is rejected with an error other than the documented ErrInvalidMetricOrder: " + kinds(midErrs)}[okMid])
+		if p.Key == "20" {
+			// an element after all 14 metrics cannot reach the loop: the
+			// splitter leaves the remainder in the last slot (R01.split)
+			add(true, "R18.auto", "ParseVector.exhausted", m.loop, "observed, not asserted: an element met after every metric was consumed is rejected with "+kinds(fullErrs)+" (unreachable behind the 14-slot splitter)")
+		} else {
+			okFull := only(fullErrs, "ErrInvalidMetricOrder")
+			add(okFull, "R18.auto", "ParseVector.exhausted", m.loop, map[bool]string{true: "an element met after every metric was consumed is rejected with ErrInvalidMetricOrder", false: "an element met after every metric was consumed is rejected with " + kinds(fullErrs) + ", the documented error is ErrInvalidMetricOrder"}[okFull])
+		}
+		okShort := only(shortErrs, "ErrTooShortVector")
+		add(okShort, "R18.auto", "ParseVector.short", m.loop, map[bool]string{true: "an input ending inside a group that must be complete is rejected with ErrTooShortVector (" + kinds(shortErrs) + ")", false: "an input ending inside a group that must be complete is rejected with " + kinds(shortErrs) + ", the documented error is ErrTooShortVector"}[okShort])
 	}
 	w.Extra["automaton_"+p.Key] = map[string]any{"state_pairs": nStates, "transitions": nTrans, "rejections": errKinds}
 }
